@@ -21,7 +21,10 @@ type lval struct {
 
 func (e *elab) recordDriver(sg *signal, lv *lval, cc *compCtx, line int) *driver {
 	d := &driver{kind: cc.kind, procID: cc.procID, file: cc.file, line: line, nodeIx: -1}
-	if sg.isMem || !lv.posConst {
+	if sg.isMem && lv.hasEl && lv.el.isConst && lv.el.cdef {
+		d.elemConst, d.elem = true, int(lv.el.ci)
+	}
+	if !lv.posConst {
 		d.whole = true
 		d.lo, d.hi = 0, sg.w-1
 	} else {
@@ -82,6 +85,7 @@ func (e *elab) resolveLvalue(sc *scope, x *Expr, cc *compCtx) ([]*lval, bool) {
 	}
 	ci := 0
 	rcc := &compCtx{mode: cc.mode, reads: cc.reads, file: cc.file, fn: cc.fn}
+	defer func() { cc.rr = append(cc.rr, rcc.rr...) }()
 	if sg.isMem {
 		if len(chain) == 0 || chain[0].Kind != eIndex {
 			e.errorf(file, x.Line, ClassUnsupported, base.Name, "assignment to a whole memory / memory slice is not supported")
@@ -961,9 +965,14 @@ func (e *elab) addCont(lvs []*lval, rhs *tx, cc *compCtx, line int, desc string)
 	if run == nil {
 		return
 	}
-	nd := &combNode{run: run, reads: sortedSigs(cc.reads), file: cc.file, line: line, desc: desc}
+	nd := &combNode{run: run, reads: sortedSigs(cc.reads), rranges: cc.rr, file: cc.file, line: line, desc: desc}
 	for _, l := range lvs {
 		nd.writes = append(nd.writes, l.sg)
+		wr := sigRange{sg: l.sg, lo: 0, hi: l.sg.w - 1, whole: true}
+		if !l.sg.isMem && l.posConst {
+			wr = sigRange{sg: l.sg, lo: int(l.lo), hi: int(l.lo) + l.w - 1}
+		}
+		nd.wranges = append(nd.wranges, wr)
 	}
 	s.nodes = append(s.nodes, nd)
 }
@@ -1021,7 +1030,10 @@ func (e *elab) behave(sc *scope, it *Item) {
 			if body == nil {
 				return
 			}
-			nd := &combNode{isProc: true, reads: sortedSigs(cc.reads), writes: sortedSigs(cc.writes), file: file, line: it.Line, desc: "always"}
+			nd := &combNode{isProc: true, reads: sortedSigs(cc.reads), writes: sortedSigs(cc.writes), rranges: cc.rr, file: file, line: it.Line, desc: "always"}
+			for _, w := range nd.writes {
+				nd.wranges = append(nd.wranges, sigRange{sg: w, hi: w.w - 1, whole: true})
+			}
 			nd.run = func(s *Sim) {
 				s.activations++
 				body(s)
